@@ -260,3 +260,8 @@ def _r22_3(ctx):
       n2 = [c for c in sl2.calls if c.is_('re:Iterator>::next$') and 'Enumerate' in (c.f.get('ga') or '')]
       okp = okp and all(re.search(r'^\[?std::iter::Enumerate<std::slice::Iter<', (c.f.get('ga') or '').strip()) for c in n2) and len(n2) >= 1
     ctx.ob('R22.4', sb.n, 'outputs are pushed as: runestone, change iff need_rune_change_output, then splits.outputs in file order', okp, '', where(sb, sb.line))
+
+
+# sensitivity pack (thorough tier): each seeded edit must be reported by the named rule instance
+MUTANTS = [{'name': 'seeded-C22-a', 'patch': 'C22-a/patch.diff', 'expect': ('R22.3', 'create_unsigned_send_or_burn_runes_transaction', 'input_rune_balances.extend')},
+           {'name': 'seeded-C22-b', 'patch': 'C22-b/patch.diff', 'expect': ('R22.4', 'Split::build_transaction', 'edict.output = base')}]
